@@ -66,7 +66,10 @@ class EventsOracle:
                 raise core.CutPath("step_cap", "more than %d steps with events" % self.max_calls)
             raise StepCap("more than %d steps with events" % self.max_calls)
         # the flags integrate() hands to the detector are its own reading of the event functions' attributes: they must be the current ones
-        flags_ok = all(bool(is_terminal[i]) == bool(ev.is_terminal) and int(direction[i]) == int(getattr(ev, "direction", 0)) for i, ev in enumerate(events))
+        # ... and so must be the constants the event functions are evaluated with
+        cur = dict(self.system.constants) if self.system is not None else {}
+        consts_ok = set(consts.keys()) == set(cur.keys()) and all(consts[k_] is cur[k_] for k_ in cur)
+        flags_ok = consts_ok and all(bool(is_terminal[i]) == bool(ev.is_terminal) and int(direction[i]) == int(getattr(ev, "direction", 0)) for i, ev in enumerate(events))
         rep = []
         for i, ev in enumerate(events):
             force = self.terminal_by is not None and k == self.terminal_by and ev.is_terminal
@@ -179,8 +182,9 @@ def scenario(c, inst, props):
             c.assume(adt <= span)
     dense = inst.get("dense", True)
     rhs = FreshRhs(c, shape, name="f", mode="uf")
+    rhs.ignore_kw = bool(inst.get("swap_constants"))       # (here the constants only matter to the event functions)
     probe = FreshRhs(c, shape, name="f", mode="uf")
-    st, built = run(spans.build_system, c, inst, t0, tf, dt0, dense, rhs)
+    st, built = run(spans.build_system, c, inst, t0, tf, dt0, dense, rhs, (dict(k=c.real("k_old")) if inst.get("swap_constants") else None))
     if st != "ok":
         c.check("%s.constructs" % min(props).lower(), False, info=repr(built))
         return
@@ -194,6 +198,9 @@ def scenario(c, inst, props):
 
     def cb(system):
         cb_calls.append(len(system.t))
+        if inst.get("swap_constants") and len(cb_calls) == 1:
+            # a step callback installs new constants (a staged system): rhs AND event functions see them from the next step on
+            system.constants = dict(k=c.real("k_new"))
     backward = (not infinite) and bool(tf - t0 < 0)
     sgn = -1 if backward else 1
     oracle.fault_call = inst.get("fault_call")
@@ -205,6 +212,8 @@ def scenario(c, inst, props):
             st, r = run(a.integrate, T1, events=events, callback=[cb])
             if st != "ok":
                 return
+            if inst.get("flip_direction"):
+                events[0].direction = -1 if events[0].direction >= 0 else 1
             if inst.get("flip_terminal"):
                 # between the calls the user changes an attribute of the (same) event function object
                 events[0].is_terminal = not events[0].is_terminal
@@ -233,8 +242,8 @@ def scenario(c, inst, props):
     c.note("recorded_events", len(rec))
     c.note("oracle_reports", sum(len(call["reported"]) for call in oracle.calls))
     T = list(a.t)
-    if props & {"C07", "C09"}:
-        c.check("%s.detector_is_handed_the_current_event_attributes" % min(props & {"C07", "C09"}).lower(), all(call["flags_ok"] for call in oracle.calls),
+    if props & {"C07", "C08", "C09"}:
+        c.check("%s.detector_is_handed_the_current_event_attributes" % min(props & {"C07", "C08", "C09"}).lower(), all(call["flags_ok"] for call in oracle.calls),
                 info=dict(calls=[call["flags_ok"] for call in oracle.calls]))
     if inst.get("flip_terminal"):
         # (the single-stop assertions below do not apply to a history whose first call may already have stopped at the event)
